@@ -378,7 +378,12 @@ class DiscreteQuadraticModel:
 
         """
         self.variables._append(label)
-        variable_index = self._cydqm.add_variable(num_cases)
+        try:
+            variable_index = self._cydqm.add_variable(num_cases)
+        except Exception:
+            # e.g. an invalid num_cases, don't keep the label
+            self.variables._pop()
+            raise
         assert variable_index + 1 == len(self.variables)
         return self.variables[-1]
 
